@@ -98,7 +98,7 @@ fn gen_subs(rng: &mut Rng) -> Vec<(Option<String>, Option<String>)> {
 
 pub fn run(ctx: &Ctx) -> i32 {
     let mut report = ctx.report("C18", "exploration");
-    report.rule = "read_card against the simulated terminal: UID absent / 0..20 bytes (all zero, zero-prefixed, three zero bytes in front of the last 14 digits, nibble patterns, random), application list (tag 60) absent/empty/1-5 entries with and without application ids, no TLV container at all, 0-5 intermediate statuses before the status information, all 256 abort codes; every card is presented twice in the same session, the second time with the irrelevant fields (track data, card type, ATS, SAK, tag-62 applications) changed. Oracle: reference classification of DESIGN 8/C18 (three-valued where the statement is silent); both presentations must give the same result. Non-trivial = every read; distinct by hash of the reported card data / abort code.".into();
+    report.rule = "read_card against the simulated terminal: systematically every UID length 0..20 x every number of leading zero bytes x zero runs in front of the last 7/8 bytes; randomly UID absent / 0..20 bytes (all zero, zero-prefixed, three zero bytes in front of the last 14 digits, nibble patterns, random), application list (tag 60) absent/empty/1-5 entries with and without application ids, no TLV container at all, 0-5 intermediate statuses before the status information, all 256 abort codes; every card is presented twice in the same session, the second time with the irrelevant fields (track data, card type, ATS, SAK, tag-62 applications) changed. Oracle: reference classification of DESIGN 8/C18 (three-valued where the statement is silent); both presentations must give the same result. Non-trivial = every read; distinct by hash of the reported card data / abort code.".into();
     report.exhaustive = Some(false);
     report.assumptions = vec!["applications listed only under tag 62 are recorded, not judged (one of the repository's own captures is such a card)".into()];
     let schema = Arc::new(refcodec::zvt_schema());
@@ -110,6 +110,41 @@ pub fn run(ctx: &Ctx) -> i32 {
         // all abort codes
         for c in (0..=255u8).filter(|c| *c as usize % threads == shard) {
             abort_case(r, &schema, c, (c % 4) as usize);
+        }
+        // systematic UIDs: every length 0..20 x every number of leading zero bytes x zero runs in front of the last
+        // 7 / 8 bytes, with an empty application list
+        let mut k = 0usize;
+        for len in 0..=20usize {
+            for z in 0..=len {
+                for variant in 0..4 {
+                    k += 1;
+                    if k % threads != shard {
+                        continue;
+                    }
+                    let mut b: Vec<u8> = (0..len).map(|i| if i < z { 0 } else { 0x11u8.wrapping_mul(i as u8 + 1) | 1 }).collect();
+                    match variant {
+                        1 if len >= 7 => {
+                            for x in b.iter_mut().skip(len - 7).take(3) {
+                                *x = 0;
+                            }
+                        }
+                        2 if len >= 7 => {
+                            for x in b.iter_mut().skip(len - 7).take(6) {
+                                *x = 0;
+                            }
+                        }
+                        3 if len >= 8 => {
+                            for x in b.iter_mut().skip(len - 8).take(4) {
+                                *x = 0;
+                            }
+                        }
+                        0 => {}
+                        _ => continue,
+                    }
+                    let card = CardData { uid: Some(refcodec::hex(&b)), ..CardData::default() };
+                    fixed_card_case(r, &mut rng, &schema, card);
+                }
+            }
         }
         for _ in 0..n / threads {
             card_case(r, &mut rng, &schema);
@@ -148,7 +183,12 @@ fn abort_case(r: &mut Report, schema: &Arc<refcodec::layout::Schema>, code: u8, 
 }
 
 fn card_case(r: &mut Report, rng: &mut Rng, schema: &Arc<refcodec::layout::Schema>) {
-    let card = CardData {
+    let card = random_card(rng);
+    fixed_card_case(r, rng, schema, card);
+}
+
+fn random_card(rng: &mut Rng) -> CardData {
+    CardData {
         no_tlv: rng.chance(1, 25),
         uid: gen_uid(rng),
         subs: gen_subs(rng),
@@ -157,7 +197,10 @@ fn card_case(r: &mut Report, rng: &mut Rng, schema: &Arc<refcodec::layout::Schem
         ats: if rng.chance(1, 2) { Some(refcodec::hex(&rng.bytes(5))) } else { None },
         sak: if rng.chance(1, 2) { Some(rng.byte()) } else { None },
         track_2: if rng.chance(1, 4) { Some(refcodec::hex(&rng.bytes(12))) } else { None },
-    };
+    }
+}
+
+fn fixed_card_case(r: &mut Report, rng: &mut Rng, schema: &Arc<refcodec::layout::Schema>, card: CardData) {
     // second presentation: same identity-relevant data, other irrelevant fields
     let second = CardData {
         card_type: Some(rng.byte()),
